@@ -628,8 +628,36 @@ func runImport(r *common.Run, sk *sink, caseNo int, rng *rand.Rand, seed int64) 
 		r.Case(false, common.Hash("corrupt-restart-failed", corruptWhat, caseNo))
 		return
 	}
+	// settle waits until pred holds. A verdict is only taken once every listed replica has processed
+	// 1500 ticks since the call (150 election timeouts; recovering a snapshot of this size takes
+	// none): if the wall-clock watchdog ends the wait first the case is inconclusive.
+	settle := func(pred func() bool) (ok bool, decided bool) {
+		base := map[uint64]int64{}
+		for id := range hostOfNew {
+			base[id] = c.Ticks(shardID, id)
+		}
+		wall := time.Now()
+		for {
+			if pred() {
+				return true, true
+			}
+			enough := true
+			for id := range hostOfNew {
+				if c.Ticks(shardID, id)-base[id] < 1500 {
+					enough = false
+				}
+			}
+			if enough {
+				return pred(), true
+			}
+			if time.Since(wall) > 120*time.Second {
+				return false, false
+			}
+			time.Sleep(20 * time.Millisecond)
+		}
+	}
 	expHash := hashLists(expected)
-	stateOK := waitFor(20*time.Second, func() bool {
+	stateOK, decided := settle(func() bool {
 		for id := range hostOfNew {
 			in := c.SMs.Latest(shardID, id)
 			if in == nil || hashLists(in.Snapshot()) != expHash {
@@ -638,6 +666,10 @@ func runImport(r *common.Run, sk *sink, caseNo int, rng *rand.Rand, seed int64) 
 		}
 		return true
 	})
+	if !stateOK && !decided {
+		r.Inconclusive(fmt.Sprintf("case %d: ticks did not advance while waiting for the imported state", caseNo))
+		return
+	}
 	if !stateOK {
 		for id := range hostOfNew {
 			in := c.SMs.Latest(shardID, id)
@@ -678,7 +710,7 @@ func runImport(r *common.Run, sk *sink, caseNo int, rng *rand.Rand, seed int64) 
 		sk.Count("early_power_loss_after_import", 1)
 		sk.Count("early_power_loss_after_import_"+kind.String(), 1)
 		fmt.Printf("import case %d: early power loss (%s)\n", caseNo, kind)
-		again := waitFor(20*time.Second, func() bool {
+		again, decided := settle(func() bool {
 			for id := range hostOfNew {
 				in := c.SMs.Latest(shardID, id)
 				if in == nil || in.Closed() {
@@ -698,6 +730,10 @@ func runImport(r *common.Run, sk *sink, caseNo int, rng *rand.Rand, seed int64) 
 			}
 			return true
 		})
+		if !again && !decided {
+			r.Inconclusive(fmt.Sprintf("case %d: ticks did not advance after the early power loss", caseNo))
+			return
+		}
 		if !again {
 			sk.Violation("C20", "imported-state-lost-after-another-restart:an early power loss",
 				"the repaired replicas held the exported state after their first start; after a power loss of their hosts right then and a restart, some replica's lists no longer start with the exported state", wit)
@@ -798,7 +834,7 @@ func runImport(r *common.Run, sk *sink, caseNo int, rng *rand.Rand, seed int64) 
 		return true
 	}
 	secondLife := func(how string, ids []uint64) bool {
-		ok := waitFor(20*time.Second, func() bool {
+		ok, decided := settle(func() bool {
 			for _, id := range ids {
 				if !hasPrefix(id) {
 					return false
@@ -807,6 +843,10 @@ func runImport(r *common.Run, sk *sink, caseNo int, rng *rand.Rand, seed int64) 
 			return true
 		})
 		sk.Count("second_restarts_checked:"+how, 1)
+		if !ok && !decided {
+			r.Inconclusive(fmt.Sprintf("case %d: ticks did not advance after %s", caseNo, how))
+			return false
+		}
 		if !ok {
 			for _, id := range ids {
 				if !hasPrefix(id) {
